@@ -451,7 +451,15 @@ def bare(c, o):
             if a['kind'] in ('obj', 'new') and o[1](a['obj']):
                 return True
             if a['kind'] == 'nil' and typelike:
-                res = None
+                # a nil of the atom's own type: whether "mentioning" covers it is not documented.  A nil of another type, or
+                # of no known type, mentions no object of that type.
+                t = a.get('type')
+                try:
+                    own = t is not None and bool(o[1]((t, 0, None)))
+                except Exception:
+                    own = True
+                if own:
+                    res = None
         return res
     return f
 
